@@ -15,6 +15,7 @@ The sum-power kernel is excluded: it has no adaptive mode (the code raises).
 -/
 import Xrfmv.Lemmas.Median
 import Xrfmv.Lemmas.AgopScale
+import Xrfmv.Lemmas.AgopStep
 
 namespace Xrfmv.Props.C19
 open Xrfmv Xrfmv.Kernel Xrfmv.Median
@@ -157,5 +158,56 @@ theorem normalised_agop_scale_free (d : ℕ) (G : List (List ℝ)) (a : ℝ) (ha
     Xrfmv.Agop.normalise 0 (Xrfmv.Agop.agopFull d (G.map fun g => g.map (a * ·))) =
       Xrfmv.Agop.normalise 0 (Xrfmv.Agop.agopFull d G) :=
   Xrfmv.Agop.normalised_agop_scale_invariant d G a ha
+
+/-! ### the whole adaptive fit with the implementation's AGOP step -/
+
+/-- The oracles of the implementation: the AGOP step is the concrete one (`Model/AgopStep.lean`: closed-form gradients of
+C04 at the centers, `GᵀG` of C14, division by the maximum, then a function `root` of the normalised matrix — square root
+through the eigen-decomposition, or the matrix itself for the memory-light kernel, or its diagonal); only the linear
+solve (a function of the Gram matrix and the targets) and `root` stay abstract. -/
+noncomputable def implOracles (solve : List (List ℝ) → List (List ℝ) → List (List ℝ)) (gradEps : ℝ)
+    (root : List (List ℝ) → Transform ℝ) : Oracles ℝ :=
+  { solve := solve, upd := Xrfmv.AgopStep.agopStep gradEps 0 root }
+
+/-- The coincidence masks of the gradients fire for the same pairs of centers at both scales, at every iterate before
+`i` (true when distinct centers are at least `max(gradEps, gradEps/c)` apart in the kernel's own transformed norm). -/
+def MaskGuardOff (c eps gradEps : ℝ) (O : Oracles ℝ) (K0 : Spec ℝ) (X Y : List (List ℝ)) (i : ℕ) : Prop :=
+  ∀ j < i, ∀ it, iterate O eps K0 X Y j = some it → Xrfmv.AgopStep.MaskGuard c gradEps it.K it.T X
+
+/-- **C19 (scale invariance of the fitted predictor, any iteration budget, the implementation's AGOP step).**
+For every linear solver and every matrix-root function, every Laplace-family kernel, every number of iterations `i`,
+every `c > 0`: the iterate fitted on `(c·X, Y)` predicts at `c·X_test` exactly what the iterate fitted on `(X, Y)`
+predicts at `X_test`.  Guards: the `< eps` guard of the median and the `< gradEps` coincidence masks fire at neither /
+at the same pairs at both scales; idealisations: the `1e-30` in the normalisation is 0, all centers are used (below the
+sub-sampling limits), gradients are not centred. -/
+theorem fit_scale_invariant_concrete (solve : List (List ℝ) → List (List ℝ) → List (List ℝ)) (gradEps : ℝ)
+    (root : List (List ℝ) → Transform ℝ) (c eps : ℝ) (K0 : Spec ℝ) (X Y Xtest : List (List ℝ)) (i : ℕ)
+    (hc : 0 < c) (heps : 0 ≤ eps) (hK : ParamOK K0) (hL : 0 ≤ K0.L)
+    (hg : GuardOff eps c (implOracles solve gradEps root) K0 X Y i)
+    (hmask : MaskGuardOff c eps gradEps (implOracles solve gradEps root) K0 X Y i) :
+    (iterate (implOracles solve gradEps root) eps K0 (X.map (smul c)) Y i).map
+        (fun it => predict it (X.map (smul c)) (Xtest.map (smul c))) =
+      (iterate (implOracles solve gradEps root) eps K0 X Y i).map fun it => predict it X Xtest := by
+  set O := implOracles solve gradEps root with hOdef
+  have hstep : ∀ j < i, ∀ it, iterate O eps K0 X Y j = some it →
+      O.upd (it.K.withL (c * it.K.L)) it.T (X.map (smul c)) it.alpha = O.upd it.K it.T X it.alpha := by
+    intro j hj it hit
+    obtain ⟨hitL, L, hitK⟩ := iterate_L_nonneg heps O K0 hL X Y j it hit (hg j hj.le it hit).1
+    have hitP : ParamOK it.K := by rw [hitK]; exact paramOK_withL _ hK
+    exact Xrfmv.AgopStep.agopStep_scale hc gradEps root it.K hitP hitL it.T X it.alpha (hmask j hj it hit)
+  rw [iterate_scale_on hc heps O K0 hK hL X Y i hg hstep]
+  cases hi : iterate O eps K0 X Y i with
+  | none => rfl
+  | some it =>
+    simp only [Option.map_some]
+    obtain ⟨hitL, L, hitK⟩ := iterate_L_nonneg heps O K0 hL X Y i it hi (hg i le_rfl it hi).1
+    have hitP : ParamOK it.K := by rw [hitK]; exact paramOK_withL _ hK
+    rw [predict_scale hc it hitP hitL]
+
+/-- Non-vacuity: with `eps = gradEps = 0` both guards hold for every data set, every kernel, every budget. -/
+example (solve : List (List ℝ) → List (List ℝ) → List (List ℝ)) (root : List (List ℝ) → Transform ℝ) {c : ℝ} (hc : 0 < c)
+    (K0 : Spec ℝ) (X Y : List (List ℝ)) (i : ℕ) :
+    GuardOff 0 c (implOracles solve 0 root) K0 X Y i ∧ MaskGuardOff c 0 0 (implOracles solve 0 root) K0 X Y i :=
+  ⟨guardOff_zero hc _ K0 X Y i, fun _ _ it _ => Xrfmv.AgopStep.maskGuard_zero hc it.K it.T X⟩
 
 end Xrfmv.Props.C19
